@@ -49,6 +49,11 @@ def allowed(groups, user_agent, path):
             if not allow:
                 continue        # empty Disallow allows everything
             return True
-        if path.startswith(prefix):
+        if path.startswith(_pct(prefix)):
             return allow
     return True
+
+
+def _pct(prefix):
+    """A rule path written in raw UTF-8 means the same as its percent-encoded form (RFC 9309 2.2.2)."""
+    return ''.join(c if ord(c) < 128 else ''.join('%%%02X' % b for b in c.encode('utf-8')) for c in prefix)
